@@ -89,12 +89,25 @@ def gen_grid(rnd, kind):
     return np.array(xs), np.array(ys)
 
 
+LI_CORPUS = [
+    # zero first node whose discriminant at u = 0 rounds to -2.2e-16 (nan before /repo commit 4bd73c9)
+    ("corpus-zero-node", [-1.4625430235503951, -0.17613579183826933, 0.9931486747289904], [0.0, 0.9886863694964385, 1.6376747351482408]),
+    # leading zero-integral bin: u = 0 sits exactly on int_step[0] = 0 (digitize side: must skip the empty bin)
+    ("corpus-zero-bin", [0.0, 1.0, 2.0, 3.0], [0.0, 0.0, 1.0, 2.0]),
+    # inner zero-integral bin and a zero node inside
+    ("corpus-inner-zero-bin", [0.0, 0.5, 1.5, 2.0, 3.0], [1.0, 0.0, 0.0, 2.0, 1.0]),
+]
+
+
 def li_cases(ctx, rnd, n_grids, n_u):
     from tf_pwa.generator.linear_interpolation import LinearInterp
     cases = []
-    for g in range(n_grids):
+    for g in range(n_grids + len(LI_CORPUS)):
         kind = ["positive", "zeros", "flat", "int"][g % 4]
         x, y = gen_grid(rnd, kind)
+        if g >= n_grids:
+            kind, x, y = LI_CORPUS[g - n_grids]
+            x, y = np.array(x), np.array(y)
         ctx.count("li_grid:" + kind)
         li = LinearInterp(x, y)
         k, b, ist = [np.array(a, dtype=float) for a in (li.k, li.b, li.int_step)]
